@@ -172,6 +172,8 @@ class State:
 
     def o_same(self, *hs):
         for h in hs:
+            if h not in self.snaps or h not in self.ex.objs:
+                continue        # nothing was recorded for this handle (possible in a shrunk script)
             now = full_state(self.C(h))
             old = self.snaps[h]
             for k in old:
